@@ -25,7 +25,8 @@ Log == ndJsonDeserialize(IOEnv.TRACE)
 Ev == Log[l]
 
 Opnd   == Mk(Ev.on, Range(Ev.oo))                       \* the operand of the call
-OpndOK == Ev.src = 1 => Opnd = other                    \* the long-lived operand is what the model says it is
+OpndOK == /\ Ev.src = 1 => Opnd = other                 \* the long-lived operand is what the model says it is
+          /\ Ev.src = 2 => Opnd = bits                  \* the object itself as operand (x op= x, x op x)
 Ret    == Mk(Ev.rn, Range(Ev.ro))                       \* the returned bitset
 Twin   == Mk(Ev.bn, Range(Ev.bo))                       \* x op y computed just before x op= y
 Proj   == Ev.res = "ok" /\ Len(bits') = Ev.sz /\ SetPos(bits') = Range(Ev.st) /\ Len(Ev.st) = Cardinality(Range(Ev.st))
